@@ -58,6 +58,8 @@ def c28_corpus():
     out.append(_scn(["a", "b", "c", "z"], "R1", chain, slow={"a": 5},
                     ops=[{"tick": 0, "cmd": "hold", "args": {"tasks": ["1/c", "1/b"]}},
                          {"tick": 2, "cmd": "force_trigger_tasks", "args": {"flow": ["all"], "tasks": ["1/b", "1/c"]}}]))
+    # fixed finding: a live group-start member with only 'submitted' complete must not satisfy a:succeeded => c
+    out.append({'custom_rate': 1.0, 'customs': {'c': ['x', 'y']}, 'disorder': 0.2, 'fail_rate': 0.15, 'fcp': 2, 'icp': 1, 'ops': [{'args': {'tasks': ['2/b']}, 'cmd': 'release', 'tick': 4}, {'args': {'flow': ['all'], 'tasks': ['2/b', '2/c', '2/a']}, 'cmd': 'force_trigger_tasks', 'tick': 4}, {'args': {'tasks': ['2/c', '2/b']}, 'cmd': 'hold', 'tick': 7}, {'args': {'tasks': ['2/c', '2/b']}, 'cmd': 'release', 'tick': 8}], 'opt': [['a', 'succeeded', True], ['b', 'succeeded', True], ['c', 'succeeded', True]], 'queues': {'q1': {'limit': 2, 'members': ['a', 'c', 'b']}}, 'runahead': 3, 'sections': [{'lines': [{'lhs': None, 'rhs': 'a'}, {'lhs': None, 'rhs': 'b'}, {'lhs': None, 'rhs': 'c'}, {'lhs': {'off': 0, 'out': 'succeeded', 'task': 'a'}, 'rhs': 'c'}], 'rec': 'R1/$'}], 'seed': 460528142, 'tasks': ['a', 'b', 'c']})
     return out
 
 
